@@ -45,6 +45,7 @@ CallViol(r) ==
     [] r.ev = "closematch" -> CloseMatchViol(r)
     [] r.ev = "inline" -> InlineViol(r)
     [] r.ev = "udiff" -> UdiffViol(r)
+    [] r.ev = "udiff_huge" -> HugeUdiffViol(r)
     [] r.ev = "same" -> IF r.a = r.b THEN {} ELSE {r.clause}
 
 TInit == l = 1 /\ bad = {}
